@@ -84,8 +84,12 @@ CHECKS = {
          'line in order (premise: no < in the style strings and the escaped '
          'URL); the table of line starts; cell i of a region over lines '
          'b..e-1 gets number b+i and the numbers never run out. '
-         'Premise not derived: every highlight ends at or in front of the start '
-         'of line e. Which lines a region covers (context arithmetic) and the '
+         'That every highlight ends at or in front of the start of the '
+         'region\'s last line is derived for the regions generate_html forms '
+         '(any context >= 0, text ending with a line break; '
+         'C16_highlights_end_inside_their_region); premise not derived: the '
+         'highlights end inside the text (offsets of the position map, '
+         'C01/C14). Which lines a region covers (context arithmetic) and the '
          'no-match branch are part of the byte-exact executable model and are '
          'decided by the correspondence run and the HTML-parsing oracle',
     ref='6/C16, 11.2',
